@@ -63,7 +63,12 @@ def rule_consumption(ctx: Ctx) -> None:
     take = [c for c in A.func_calls(po) if (A.call_name(c) or "").endswith(".take_liquidity")]
     fill = [c for c in A.func_calls(po) if (A.call_name(c) or "").endswith(".add_fill")]
     ups = [c for c in A.func_calls(po) if (A.call_name(c) or "") == "self._update_balances"]
-    ctx.require(len(take) == 1 and len(fill) == 1 and len(ups) == 1, "C08.2: _process_order lost take_liquidity / add_fill / the commit")
+    ctx.require(len(fill) == 1 and len(ups) == 1, "C08.2: _process_order lost add_fill / the commit")
+    if not take:
+        ctx.bad("C08.2", "every recorded fill consumed liquidity", po, fill[0], "_process_order never calls take_liquidity: fills do not consume the "
+                "bar's liquidity, so the orders of one bar can together exceed the volume share")
+        return
+    ctx.require(len(take) == 1, "C08.2: several take_liquidity calls in _process_order (unrecognised idiom)")
     tn, fn_, un = g.nodes_for(take[0])[0], g.nodes_for(fill[0])[0], g.nodes_for(ups[0])[0]
     p1 = g.path_avoiding(g.entry, lambda n: n is fn_, lambda n: n is tn)
     ctx.check(p1 is None, "C08.2", "every recorded fill consumed liquidity", po, take[0], "take_liquidity dominates add_fill",
